@@ -262,4 +262,7 @@ def run_line(line: str) -> str:
     if toks[0] != "net":
         raise Infra("not a net line")
     s = NetSession(int(toks[1]), toks[2] == "1")
-    return s.run(split_ops(toks[3:]))
+    try:
+        return s.run(split_ops(toks[3:]))
+    finally:
+        simradio.unpatch_time()
